@@ -33,7 +33,9 @@ EXPLANATION = (
 NOT_DECIDED = [
     "that predictions of the tree regressors lie in [0, 10] and are equal "
     "across processes (sklearn runtime behaviour)",
-    "absence of exceptions other than missing fit-properties keys",
+    "absence of exceptions raised inside numpy/sklearn for particular "
+    "values (only missing keys, explicit raise/assert sites and empty "
+    "selections are decided)",
 ]
 ASSUMPTIONS = [
     "A5: which sklearn estimator classes accept random_state is read from "
@@ -549,6 +551,256 @@ def r6_training_set(ctx):
     r3_name_selector(ctx)
 
 
+def _curve_leaves(fn, own_props, is_curve_method):
+    """names of `fn` whose value depends on the curve being rated, and a
+    predicate that tells whether an expression reads the curve"""
+    params = func_params(fn)
+    curve_params = {p for p in params if p in ("idnt", "datasets", "dataset",
+                                                "samples", "indent")}
+
+    def direct(e):
+        for n in ast.walk(e):
+            if isinstance(n, ast.Attribute) and isinstance(
+                    n.value, ast.Name) and n.value.id == "self":
+                if is_curve_method or n.attr == "dataset" or \
+                        n.attr in own_props:
+                    return True
+            if isinstance(n, ast.Name) and n.id in curve_params:
+                return True
+        return False
+    tainted = set(curve_params)
+    for _ in range(6):
+        grew = False
+        for st in walk_no_nested(fn, False):
+            tg, val = None, None
+            if isinstance(st, ast.Assign):
+                tg, val = st.targets, st.value
+            elif isinstance(st, ast.AugAssign):
+                tg, val = [st.target], st.value
+            elif isinstance(st, (ast.For, ast.comprehension)):
+                tg, val = [st.target], st.iter
+            if tg is None:
+                continue
+            dep = direct(val) or any(isinstance(n, ast.Name)
+                                     and n.id in tainted
+                                     for n in ast.walk(val))
+            if dep:
+                for t in tg:
+                    for n in ast.walk(t):
+                        if isinstance(n, ast.Name) and n.id not in tainted:
+                            tainted.add(n.id)
+                            grew = True
+        if not grew:
+            break
+
+    def reads_curve(e):
+        return direct(e) or any(isinstance(n, ast.Name) and n.id in tainted
+                                for n in ast.walk(e))
+    return reads_curve
+
+
+def r7_no_data_dependent_abort(ctx):
+    """rate_quality never raises, whatever the state of the curve: every
+    `raise`/`assert` reachable from it is either validation of the
+    configuration arguments (regressor, training set, names, type
+    selection), or sits in an accessor whose every use is guarded by the
+    validity predicate it tests, never a test on the curve's data."""
+    cg = CallGraph(ctx.repo)
+    root = ("indent", "Indentation.rate_quality")
+    reach = cg.reachable([root]) | {root}
+    fm = ctx.repo.mod("rate.features")
+    own_props = set()
+    for q, f in fm.funcs.items():
+        if q.startswith("IndentationFeatures.") and any(
+                dotted(d) in ("property", "functools.cached_property",
+                              "cached_property") for d in f.decorator_list):
+            own_props.add(q.split(".", 1)[1])
+    ctx.floor("accessor properties of IndentationFeatures", len(own_props), 6)
+    sites = 0
+    funcs = {}
+    for k in sorted(reach):
+        try:
+            funcs[k] = cg.func(k)
+        except KeyError:
+            continue
+    for (mn, q), f in funcs.items():
+        ctx.analysed(f)
+        is_curve = mn == "indent" and q.startswith("Indentation.")
+        reads_curve = None
+        for n in walk_no_nested(f, False):
+            if not isinstance(n, (ast.Raise, ast.Assert)):
+                continue
+            if isinstance(n, ast.Raise) and n.exc is None:
+                continue
+            # an abort caught inside the same function is not an exit
+            par = getattr(n, "_parent", None)
+            caught = False
+            child = n
+            while par is not None and par is not f:
+                if isinstance(par, ast.Try) and par.handlers and any(
+                        child is s_ for s_ in par.body):
+                    caught = True
+                child, par = par, getattr(par, "_parent", None)
+            if caught:
+                continue
+            sites += 1
+            if reads_curve is None:
+                reads_curve = _curve_leaves(f, own_props, is_curve)
+            conds = list(conditions_at(n))
+            tests = [(a.node, a.pol) for a in conds]
+            if isinstance(n, ast.Assert):
+                tests.append((n.test, False))
+            # (`arg is None` tests which arguments were given, not the data)
+            def none_test(t):
+                if isinstance(t, ast.BoolOp):
+                    return all(none_test(v) for v in t.values)
+                if isinstance(t, ast.UnaryOp) and isinstance(t.op, ast.Not):
+                    return none_test(t.operand)
+                return isinstance(t, ast.Compare) and len(t.ops) == 1 and \
+                    isinstance(t.ops[0], (ast.Is, ast.IsNot)) and \
+                    isinstance(t.left, ast.Name) and isinstance(
+                        t.comparators[0], ast.Constant)
+            dep = [(t, pol) for t, pol in tests
+                   if reads_curve(t) and not none_test(t)]
+            kind = "assert" if isinstance(n, ast.Assert) else "raise"
+            if not dep:
+                ctx.ok(n, f"{q}: {kind} depends on the configuration "
+                       "arguments only")
+                continue
+            # accessor guarded by a validity predicate of the same object
+            preds = set()
+            pure_pred = True
+            for t, pol in dep:
+                t0 = t.operand if isinstance(t, ast.UnaryOp) and isinstance(
+                    t.op, ast.Not) else t
+                if isinstance(t0, ast.Attribute) and isinstance(
+                        t0.value, ast.Name) and t0.value.id == "self" and \
+                        t0.attr.startswith(("has_", "is_")):
+                    preds.add(t0.attr)
+                else:
+                    pure_pred = False
+            meth = q.split(".")[-1]
+            if pure_pred and preds and meth in own_props:
+                bad = []
+                uses = 0
+                for (m2, q2), f2 in funcs.items():
+                    for u in walk_no_nested(f2, False):
+                        if isinstance(u, ast.Attribute) and u.attr == meth \
+                                and isinstance(u.ctx, ast.Load) and \
+                                isinstance(u.value, ast.Name):
+                            uses += 1
+                            obj = u.value.id
+                            have = {a.text for a in conditions_at(u)
+                                    if a.pol}
+                            if not any(f"{obj}.{p_}" in have for p_ in preds):
+                                bad.append((u, q2))
+                for u, q2 in bad:
+                    ctx.fail(u, f"{q2}: .{meth} read without "
+                             f"{'/'.join(sorted(preds))}",
+                             f"{q2} reads `.{meth}` without testing "
+                             f"{'/'.join(sorted(preds))} first: for a curve "
+                             f"without it {q} raises and the exception "
+                             "leaves rate_quality")
+                if not bad:
+                    ctx.ok(n, f"{q}: every one of the {uses} reads of "
+                           f".{meth} on the rating path is guarded by "
+                           f"{'/'.join(sorted(preds))}")
+                continue
+            txt = " and ".join(("" if pol else "not ") + f"({norm(t)})"
+                               for t, pol in dep)
+            ctx.fail(n, f"{kind} on curve data in {q}",
+                     f"{mn}.{q} (reachable from rate_quality) aborts with "
+                     f"`{norm(n)[:70]}` when {txt} - a condition on the "
+                     "curve's data: for such a curve rate_quality raises "
+                     "instead of returning a rating")
+    ctx.floor("raise/assert sites on the rating path", sites, 5)
+
+
+_COMBINERS = ("np.concatenate", "np.vstack", "np.hstack", "np.stack",
+              "np.column_stack", "np.dstack")
+
+
+def r8_empty_selection(ctx):
+    """A feature selection can be empty for one type (names of binary
+    features only): combining the per-feature arrays of a selection must not
+    assume at least one entry."""
+    cg = CallGraph(ctx.repo)
+    root = ("indent", "Indentation.rate_quality")
+    reach = cg.reachable([root]) | {root}
+    n_sites = 0
+    for k in sorted(reach):
+        try:
+            f = cg.func(k)
+        except KeyError:
+            continue
+        stmts = [s_ for s_ in walk_no_nested(f, False)]
+
+        def origin(e, before, depth=0):
+            """the selection call the list `e` is built from, or None"""
+            if depth > 6 or e is None:
+                return None
+            if isinstance(e, ast.Call) and (call_name(e) or "").endswith(
+                    "get_feature_names"):
+                return e
+            if isinstance(e, (ast.ListComp, ast.GeneratorExp)):
+                if e.generators[0].ifs:
+                    return None
+                return origin(e.generators[0].iter, before, depth + 1)
+            if isinstance(e, ast.Call) and call_name(e) in (
+                    "list", "tuple", "sorted") and e.args:
+                return origin(e.args[0], before, depth + 1)
+            if isinstance(e, ast.Name):
+                defs = [s_ for s_ in stmts if isinstance(s_, ast.Assign)
+                        and norm(s_.targets[0]) == e.id
+                        and s_.lineno < before]
+                if not defs:
+                    return None
+                d = max(defs, key=lambda s_: s_.lineno)
+                if isinstance(d.value, ast.List) and not d.value.elts:
+                    for lp in stmts:
+                        if isinstance(lp, ast.For) and lp.lineno > d.lineno \
+                                and lp.lineno < before and any(
+                                    isinstance(c, ast.Call) and isinstance(
+                                        c.func, ast.Attribute)
+                                    and c.func.attr == "append"
+                                    and norm(c.func.value) == e.id
+                                    and not conditions_at(c, stop=lp)
+                                    for b in lp.body for c in ast.walk(b)):
+                            return origin(lp.iter, lp.lineno, depth + 1)
+                    return None
+                return origin(d.value, d.lineno, depth + 1)
+            return None
+        for c in calls_in(f):
+            if call_name(c) not in _COMBINERS or not c.args:
+                continue
+            src = origin(c.args[0], c.lineno)
+            if src is None:
+                continue
+            n_sites += 1
+            wt = kwarg(src, "which_type")
+            restricted = wt is not None and literal(wt) not in (
+                "all", ["all"], None)
+            if wt is not None and isinstance(wt, ast.Name):
+                # forwarded from a caller: restricted if any caller says so
+                restricted = True
+            guard = any(a.pol and (a.text in (norm(c.args[0]),
+                                              f"len({norm(c.args[0])})")
+                                   or a.text.startswith(
+                                       f"len({norm(c.args[0])}) >"))
+                        for a in conditions_at(c))
+            ctx.check(guard or not restricted, c,
+                      f"{k[1]}: {call_name(c)} over the arrays of a feature "
+                      "selection",
+                      f"{k[0]}.{k[1]} calls {call_name(c)}() on one array "
+                      f"per name returned by `{norm(src)[:60]}`: a "
+                      "selection that holds no feature of that type (e.g. "
+                      "names=['feat_bin_size']) gives an empty list, "
+                      f"{call_name(c)} raises ValueError and rate_quality "
+                      "raises instead of returning a rating")
+    ctx.floor("array combinations over a feature selection on the rating "
+              "path", n_sites, 1)
+
+
 RULES = [
     ("C09-R1", "fit-properties reads on the rating path are guarded "
      "(inter-procedural key-presence typestate)", r1_key_presence),
@@ -563,4 +815,9 @@ RULES = [
     ("C09-R6", "the rater's training set is sanitised (NaN rows, "
      "imputation, both infinities) and features at rating time follow the "
      "rater's names", r6_training_set),
+    ("C09-R7", "no raise/assert on the rating path tests the curve's data "
+     "(configuration checks and guarded accessors only)",
+     r7_no_data_dependent_abort),
+    ("C09-R8", "arrays of a feature selection are combined only when the "
+     "selection is not empty", r8_empty_selection),
 ]
